@@ -2,7 +2,7 @@
 # usage: seedall.sh <ID> [extra check ids...]  - confirms /tmp/seed-<ID>/out/{1,2,3} and runs the checks against each
 ID=$1; shift
 WT=/tmp/seed-$ID
-for k in 1 2 3 4 5; do
+for k in ${KS:-1 2 3 4 5 6 7 8 9}; do
   [ -f $WT/out/$k/patch.diff ] || continue
   /verif/tools/seedconfirm.sh $WT $k $ID-$k $ID $ID "$@" > /dev/null 2>&1
   python3 /verif/tools/seedmeta.py $ID-$k $ID
